@@ -96,7 +96,7 @@ pub fn op_text(op: &Op) -> String {
         DemuxEnum => "demux_enum::<vf_dfir_rt::Kv2>()".into(),
         State(p) => format!("state::<{}, dfir_rs::lattices::Max<u8>>()", p.s()),
         StateBy(p) => format!(
-            "state_by::<{}, dfir_rs::lattices::set_union::SetUnionBTreeSet<u8>>(|&(_a, b): &{KV}| dfir_rs::lattices::set_union::SetUnionSingletonSet::new_from(b), ::std::default::Default::default)",
+            "state_by::<{}, dfir_rs::lattices::set_union::SetUnionBTreeSet<u8>>(|(_a, b): {KV}| dfir_rs::lattices::set_union::SetUnionSingletonSet::new_from(b), ::std::default::Default::default)",
             p.s()
         ),
         Union => "union()".into(),
